@@ -73,6 +73,9 @@ def as_form(a, form):
     a = np.array(a, dtype=float)
     if form == 'list':
         return a.tolist()
+    if form == 'int':
+        assert (a == np.round(a)).all()
+        return a.astype(int)       # the same (whole) numbers as an integer-typed array
     return a
 
 
@@ -189,9 +192,13 @@ def build_catalogue():
     def rots():
         from scipy.spatial.transform import Rotation
         return Rotation.from_euler('xyz', traj_table(40, 0.1)[['roll', 'pitch', 'heading']].values, True)
-    C.append(Entry('transform.smooth_rotations', lambda f: dict(r=rots()), lambda a: transform.smooth_rotations(a['r'], 0.1, 0.5)))
-    C.append(Entry('transform.smooth_state', lambda f: dict(s=traj_table(60, 0.1)), lambda a: transform.smooth_state(a['s'], 0.5),
-                   schema=cols_are(TRAJ)))
+    # smoothing times 0.46 / 0.5 / 0.54 give the same filter length (11 taps) but different cut-offs: parameters
+    # that collide in a derived quantity must not share anything between calls
+    for st_ in (0.5, 0.46, 0.54):
+        C.append(Entry('transform.smooth_rotations[%g]' % st_, lambda f: dict(r=rots()),
+                       lambda a, st_=st_: transform.smooth_rotations(a['r'], 0.1, st_)))
+        C.append(Entry('transform.smooth_state[%g]' % st_, lambda f: dict(s=traj_table(60, 0.1)),
+                       lambda a, st_=st_: transform.smooth_state(a['s'], st_), schema=cols_are(TRAJ)))
     C.append(Entry('transform.mat_en_from_ll', lambda f: dict(lat=A([-33.0, 60.0], f), lon=A([151.0, -170.0], f)),
                    lambda a: transform.mat_en_from_ll(a['lat'], a['lon']), AF))
     C.append(Entry('transform.mat_from_rph', lambda f: dict(r=traj_table()[['roll', 'pitch', 'heading']] if f == 'frame' else
@@ -208,6 +215,14 @@ def build_catalogue():
     C.append(Entry('util.mv_prod', lambda f: dict(a=A(M3, f), b=A(M3[0], f)),
                    lambda a: (util.mv_prod(a['a'], a['b']), util.mv_prod(a['a'], a['b'], at=True)), AF))
     C.append(Entry('util.skew_matrix', lambda f: dict(v=A(M3[0], f)), lambda a: util.skew_matrix(a['v']), AF))
+    C.append(Entry('util.skew_matrix[integer-valued]', lambda f: dict(v=A([[1, -2, 3], [0, 5, -7]], f)),
+                   lambda a: util.skew_matrix(a['v']), ('array', 'int', 'list')))
+    C.append(Entry('util.mm_prod[integer-valued]', lambda f: dict(a=A([[1, 2], [3, 4]], f), b=A([[0, -1], [5, 2]], f)),
+                   lambda a: (util.mm_prod(a['a'], a['b']), util.mv_prod(a['a'], a['b'][0])), ('array', 'int', 'list')))
+    C.append(Entry('transform.mat_from_rph[integer-valued]', lambda f: dict(r=A([[10, -20, 30], [0, 45, 170]], f)),
+                   lambda a: transform.mat_from_rph(a['r']), ('array', 'int', 'list')))
+    C.append(Entry('transform.lla_to_ecef[integer-valued]', lambda f: dict(l=A([[-33, 151, 100], [60, -170, 9000]], f)),
+                   lambda a: (transform.lla_to_ecef(a['l']), transform.perturb_lla(a['l'], [[10, -5, 2]] * 2)), ('array', 'int', 'list')))
     C.append(Entry('util.compute_rms', lambda f: dict(d=traj_table() if f == 'frame' else A(traj_table().values, f)),
                    lambda a: util.compute_rms(a['d']), ('array', 'list', 'frame')))
     C.append(Entry('util.to_180_range', lambda f: dict(a=pd.Series([190.0, -190.0, 180.0, 720.5]) if f == 'frame' else A([190.0, -190.0, 180.0, 720.5], f)),
@@ -217,6 +232,13 @@ def build_catalogue():
     Q4 = np.diag([0.0, 0.1, 0.0, 0.3])
     C.append(Entry('kalman.compute_process_matrices', lambda f: dict(F=F4.copy(), Q=Q4.copy()),
                    lambda a: kalman.compute_process_matrices(a['F'], a['Q'], 0.7)))
+    C.append(Entry('kalman.compute_process_matrices[integer-valued F]',
+                   lambda f: dict(F=A([[0, 1, 0], [0, 0, 1], [0, 0, 0]], f), Q=np.diag([0.0, 0.25, 0.5])),
+                   lambda a: kalman.compute_process_matrices(a['F'], a['Q'], 0.5), ('array', 'int')))
+    C.append(Entry('kalman.correct[integer-valued]',
+                   lambda f: dict(x=A([1, -2, 0, 3], f), P=A(np.diag([4, 2, 1, 1]) + 1, f), z=A([1, -1], f),
+                                  H=A([[1, 0, 0, -1], [0, 2, 1, 0]], f), R=np.array([[2.0, 0.5], [0.5, 1.0]])),
+                   lambda a: kalman.correct(a['x'], a['P'], a['z'], a['H'], a['R']), ('array', 'int')))
     C.append(Entry('kalman.correct', lambda f: dict(x=np.array([1.0, -2, 0.5, 3]), P=np.diag([4.0, 2, 1, 0.5]) + 0.1,
                                                     z=np.array([0.3, -1.2]), H=np.array([[1.0, 0.5, 0, -1], [0, 2, 1, 0.25]]),
                                                     R=np.array([[2.0, 0.5], [0.5, 1.0]])),
@@ -420,7 +442,79 @@ def catalogue():
 
 def gen_cases(tier, seed):
     # building the catalogue only defines closures: no library function is called in the parent process
-    return [dict(g=i, tier=tier) for i in range(len(catalogue()))]
+    n = len(catalogue())
+    return [dict(g=i, tier=tier) for i in range(n)] + [dict(after=i, tier=tier) for i in range(n)]
+
+
+def run_after(case):
+    """One pristine process: entry f first, then the FIRST call of every other entry g in this process.  The
+    digests are compared (cross_check, in the parent) with the first-call digests of the per-entry processes: a
+    'first writer wins' cache, a mutated module-level default or any other state f leaves behind shows up as a
+    different first result of g."""
+    cat = catalogue()
+    fi = case['after']
+    viol = []
+    digests = {}
+    order = [fi] + [i for i in range(len(cat)) if i != fi]
+    calls = 0
+    for i in order:
+        try:
+            res, _, msg = execute(cat[i], cat[i].forms[0])
+            digests[i] = digest(res)
+            calls += 1
+        except Exception as e:  # noqa
+            viol.append(dict(sig='c19-entry-raises:' + cat[i].name, msg='%s raised %s: %s (history starts with %s)'
+                             % (cat[i].name, type(e).__name__, str(e)[:120], cat[fi].name)))
+    return dict(viol=viol, key='after:' + cat[fi].name, nontrivial=True, stats=dict(calls=calls), calls=calls,
+                pairs=len(order) - 1, name='after:' + cat[fi].name, digests=digests, order=order)
+
+
+def run_pair(case):
+    """Replay of one cross-process disagreement: baseline of g from a fresh child process, then the recorded history
+    followed by g in this process."""
+    import subprocess
+    import sys
+    import os
+    cat = catalogue()
+    gi = case['g_first_after']
+    code = ('import sys; sys.path[:0] = %r; from mc.props import c19; e = c19.catalogue()[%d]; '
+            'print("DIGEST", c19.digest(c19.execute(e, e.forms[0])[0]))' % (sys.path[:3], gi))
+    out = subprocess.run([sys.executable, '-c', code], capture_output=True, text=True, env=dict(os.environ))
+    base = [l.split()[1] for l in out.stdout.splitlines() if l.startswith('DIGEST')]
+    if not base:
+        raise RuntimeError('baseline child failed: ' + out.stderr[-500:])
+    for i in case['history']:
+        execute(cat[i], cat[i].forms[0])
+    got = digest(execute(cat[gi], cat[gi].forms[0])[0])
+    viol = []
+    if got != base[0]:
+        viol.append(dict(sig='c19-history-dependence:%s' % cat[gi].name, msg=case.get('msg', 'differs')))
+    return dict(viol=viol, key=None, nontrivial=True, stats={})
+
+
+def cross_check(cases, results):
+    cat = catalogue()
+    base = {}
+    for c, r in zip(cases, results):
+        if 'g' in c and r.get('base_digest') is not None:
+            base[c['g']] = r['base_digest']
+    out = []
+    for idx, (c, r) in enumerate(zip(cases, results)):
+        if 'after' not in c or 'digests' not in r:
+            continue
+        order = r['order']
+        for pos, gi in enumerate(order):
+            d = r['digests'].get(gi)
+            if d is None or gi not in base or d == base[gi]:
+                continue
+            hist = order[:pos]
+            msg = ('%s, called for the first time in a process after %s, gives a different result than as the very first '
+                   'call of a fresh process (history: %s)' % (cat[gi].name, cat[order[0]].name,
+                                                              [cat[i].name for i in hist][-4:]))
+            out.append((idx, dict(sig='c19-history-dependence:%s' % cat[gi].name, msg=msg,
+                                  replay_case=dict(g_first_after=gi, history=hist, msg=msg))))
+            break
+    return out
 
 
 def execute(entry, form):
@@ -437,6 +531,10 @@ def execute(entry, form):
 
 
 def run_case(case):
+    if 'after' in case:
+        return run_after(case)
+    if 'g_first_after' in case:
+        return run_pair(case)
     cat = catalogue()
     g = cat[case['g']]
     viol = []
@@ -502,14 +600,15 @@ def run_case(case):
     for x in viol:
         first.setdefault(x['sig'], x)
     return dict(viol=list(first.values()), key=g.name, nontrivial=True,
-                stats=dict(calls=calls, pairs=len(history)), calls=calls, pairs=len(history), name=g.name)
+                stats=dict(calls=calls, pairs=len(history)), calls=calls, pairs=len(history), name=g.name,
+                base_digest=base[g.forms[0]])
 
 
 def finalize(cases, results, tier):
     calls = sum(r.get('calls', 0) for r in results)
     pairs = sum(r.get('pairs', 0) for r in results)
     return dict(states=pairs + len(results), transitions=calls, traces_validated_against_impl=len(results),
-                distinct_nontrivial=pairs, catalogue=[r.get('name') for r in results],
+                distinct_nontrivial=pairs, catalogue=[r.get('name') for r in results if not str(r.get('name')).startswith('after:')],
                 not_exercisable=['sim.Turntable.generate_imu (raises inside the installed scipy)'],
                 explanation='one pristine process per entry g; every call is a real call of the public API; '
                             'states = program points (g after history h), transitions = calls')
